@@ -38,6 +38,9 @@ impl OutputFormat for TundraDraw {
         let mut result = vec![TUNDRA_VER]; // version
         result.extend(TUNDRA_HEADER);
         let mut attr = TextAttribute::from_u8(0, buf.ice_mode);
+        // the reader starts with black on black, which need not be color 0 of this palette:
+        // the first cell always carries both of its colors
+        let mut first = true;
         let mut skip_pos = None;
         let mut colors = HashSet::new();
 
@@ -85,13 +88,16 @@ impl OutputFormat for TundraDraw {
                 let mut cmd = 0;
                 // the characters 1..=6 are the command bytes of the format: such a cell is always written
                 // as a color change (with its own colors) to represent the control character
-                let write_foreground = (1..=6).contains(&ch)
+                let write_foreground = first
+                    || (1..=6).contains(&ch)
                     || buf.palette.get_color(attr.get_foreground()).get_rgb() != buf.palette.get_color(cur_attr.get_foreground()).get_rgb()
                     || attr.is_bold() != cur_attr.is_bold();
                 if write_foreground {
                     cmd |= TUNDRA_COLOR_FOREGROUND;
                 }
-                let write_background = buf.palette.get_color(attr.get_background()).get_rgb() != buf.palette.get_color(cur_attr.get_background()).get_rgb();
+                let write_background =
+                    first || buf.palette.get_color(attr.get_background()).get_rgb() != buf.palette.get_color(cur_attr.get_background()).get_rgb();
+                first = false;
                 if write_background {
                     cmd |= TUNDRA_COLOR_BACKGROUND;
                 }
